@@ -47,6 +47,11 @@ def body(c):
                 continue  # model: one armed timer fires at most once before being consumed
             s.append(x)
         scheds.append(s)
+    # bursts: many (or large) responses available in the same poll, beyond the model-checking bound
+    for n, big in ((5, False), (40, False), (130, False), (4, True), (12, True)):
+        for pre in ([], ["poll"], ["tick", "poll", "poll"]):
+            scheds.append(pre + (["feedbig"] if big else ["feed"]) * n + ["poll"] * (3 * n + 2) + ["end", "poll", "poll"])
+            scheds.append(pre + (["feedbig"] if big else ["feed"]) * n + ["tick"] + ["poll"] * (3 * n + 6) + ["end", "poll"])
     vlib.write_ndjson(c.path("schedules.ndjson"), scheds)
     (binary,) = vlib.build_harness(["c26"])
     p = vlib.run_harness(binary, [c.path("schedules.ndjson"), c.path("trace.ndjson"), c.seed], timeout=1800)
